@@ -135,6 +135,8 @@ func (e *FuncEnc) jsonEvents() {
 		ax("spl", vars, ev, "jst", "", fmt.Sprintf("(ite %s (+ (j_base %s) 2) 99)", ok, s))
 		e.D.Axiom("json:jobj:spl", fmt.Sprintf("(forall ((t Trace) (x Iface) (k Str) %s) (! (= (select (jobj (tr_cons t %s) x) k) (ite (and (= x w) ((_ is j_some) (select (jobj t u) k))) (select (jobj t u) k) (select (jobj t x) k))) :pattern ((select (jobj (tr_cons t %s) x) k))))", vars, ev, ev))
 		e.D.UF("j_overlap", []string{"(Array Str JOpt)", "(Array Str JOpt)"}, "Bool")
+		e.D.UF("j_ow", []string{"(Array Str JOpt)", "(Array Str JOpt)"}, "Str")
+		e.D.Axiom("json:overlap-witness", "(forall ((a (Array Str JOpt)) (b (Array Str JOpt))) (! (=> (j_overlap a b) (and ((_ is j_some) (select a (j_ow a b))) ((_ is j_some) (select b (j_ow a b))))) :pattern ((j_overlap a b))))")
 		ax("spl", vars, ev, "jdup", "", "(or (jdup t w) (jdup t u) (j_overlap (jobj t w) (jobj t u)))")
 		ax("spl", vars, ev, "jkey", "", "(jkey t w)")
 		ax("spl", vars, ev, "jarr", "", "(jarr t w)")
@@ -454,7 +456,16 @@ func InstallJSONLibrary(w *World) {
 		e.assume(e.curReach, and(sx(">=", rs[0], "0"), implies(eq(st, "0"), eq(rs[0], "0")), implies(and(sx(">", st, "0"), sx("<", st, "99")), sx(">", rs[0], "0"))))
 		return true
 	}}
-	L["(*bytes.Buffer).String"] = pureUF("the text written so far")
+	strUF := pureUF("")
+	L["(*bytes.Buffer).String"] = LibModel{Doc: "the text written so far (empty iff nothing was written)", Fn: func(e *FuncEnc, in ssa.Instruction, av []ssa.Value, a []string, rts []types.Type, res ssa.Value) bool {
+		e.jsonEvents()
+		strUF.Fn(e, in, av, a, rts, res)
+		w := e.ifaceOfPtr(av[0])
+		st := sx("jst", e.cur.trace, w)
+		n := sx("slen", e.v(res))
+		e.assume(e.curReach, and(implies(eq(st, "0"), eq(n, "0")), implies(and(sx(">", st, "0"), sx("<", st, "99")), sx(">", n, "0"))))
+		return true
+	}}
 }
 
 // assumeDoc: ghost attributes of a byte slice holding the text of writer w.
@@ -489,6 +500,16 @@ func (e *FuncEnc) freshBufferFacts(x *ssa.Alloc, addr string) {
 	}
 	e.jsonEvents()
 	w := e.ifaceOf(x.Type(), addr)
+	e.noteWriter(w)
+	// a writer handed in by the caller existed before this buffer did
+	root := e.Fn
+	for _, p := range root.Params {
+		if e.D.SortOf(p.Type()) == "Iface" {
+			if pv, ok := e.val[p]; ok {
+				e.assume("true", not(eq(pv, w)))
+			}
+		}
+	}
 	tr := e.cur.trace
 	e.assume("true", and(eq(sx("jst", tr, w), "0"), eq(sx("jobj", tr, w), "j_empty"), not(sx("jdup", tr, w)), eq(sx("jarr", tr, w), "seq_nil")))
 	e.Assumed["a bytes.Buffer variable starts empty"] = true
